@@ -338,7 +338,7 @@ func vsizes(r *hx.Run) []int {
 
 func (f *mverify) Gen(r *hx.Run) {
 	r.Rule("honest inclusion / consistency / path proofs of real trees (sizes 1..N and around powers of two, lists with repeated leaves) and single and double mutations of every component (proof hash bit flip, swap, drop, duplicate, extra, substitution by another node of the tree, index and size +-1 / next power of two, leaf <-> interior node, root flip / other root, flag 0<->1 and 1<->2, truncated and extended path bytes, non-canonical length prefix); distinct non-trivial = distinct (verifier, size, index / old size, mutation kind)")
-	muts := r.Pick(6, 60)
+	muts := r.Pick(6, 200)
 	for _, n := range vsizes(r) {
 		t := buildTree(r, n, n%3 == 0)
 		root := refMTH(t.lh)
